@@ -138,3 +138,60 @@ def seg_len(segs):
     for kind, v in segs:
         tot = tot + (_builtin_len(v) if kind == 'text' else v.length)
     return tot
+
+
+# ---------------------------------------------------------------------------
+# decimal renderings of symbolic numbers (csv, f-strings): str(x) is a token that int()/float() map back to x
+
+_builtin_int, _builtin_float = int, float
+
+
+def decimal(sym):
+    """Canonical token for str(sym) (one token per z3 term, so re-rendering gives the same text)."""
+    r = _reg()
+    key = ('dec', sym.e.get_id())
+    hit = r.get(key)
+    if hit is None:
+        tok = _new(None, 'dec', 'decimal', sym)
+        r[key] = tok
+        hit = tok
+    return hit
+
+
+def _dec_atom(s):
+    if isinstance(s, str):
+        raw = str.__str__(s).strip()
+        m = _TOK.fullmatch(raw)
+        if m:
+            a = _reg()[int(m.group(1))]
+            if a.kind == 'dec':
+                return a
+            raise ValueError(f'invalid literal: symbolic text is not a number')
+    return None
+
+
+def xint(x=0, *a):
+    at = _dec_atom(x) if not a else None
+    if at is not None:
+        if isinstance(at.unit, core.SymReal):
+            raise ValueError("invalid literal for int() with base 10: a float rendering")
+        return at.unit
+    return _builtin_int(x, *a)
+
+
+def xfloat(x=0.0):
+    at = _dec_atom(x)
+    if at is not None:
+        u = at.unit
+        return u if isinstance(u, core.SymReal) else core.SymReal(z3.ToReal(u.e))
+    return _builtin_float(x)
+
+
+def install_decimal():
+    core._SymNum.__str__ = lambda self: decimal(self)
+    core._SymNum.__format__ = lambda self, spec: decimal(self)
+    core.SymBool.__str__ = lambda self: 'True' if bool(self) else 'False'
+
+
+def raw(s):
+    return str.__str__(s) if isinstance(s, str) else s
